@@ -16,7 +16,7 @@ import (
 )
 
 var c14Authors = []string{"Ann", "Ann Lee", "李 雷", "R2 D2", "Joe 2020-01-01"}
-var c14Subjects = []string{"plain subject", "fix(core): repair x", "see [abc1234] for details", "move a => b", "1 2 file", "DATE release", " create mode 100644 x", "thanks AUTHOR", "say \"hi\"", "handover from FULLAUTHOR DATE session notes"}
+var c14Subjects = []string{"plain subject", "fix(core): repair x", "see [abc1234] for details", "move a => b", "1 2 file", "DATE release", " create mode 100644 x", "thanks AUTHOR", "say \"hi\"", "handover from FULLAUTHOR DATE session notes", ""}
 var c14Paths = []string{"a.txt", "d/a.txt", "d e/f g.txt", "d/{x}.txt", "a => b.txt", "2020 notes.txt", "src/Main.java", "d/ends in a blank "}
 
 type gOp struct {
